@@ -108,6 +108,8 @@ Definition srv_write (s : st) (f : frame) (on_enq on_ctx : st -> list outcome) :
 Definition err_code_of_return (s : st) (code : Z) : Z :=
   if code =? -1 then 2                                  (* io.EOF from a handler is reported as Unknown *)
   else if code =? -2 then ctx_status (sctx s)           (* the handler's context error, translated by the client *)
+  else if code =? -3 then 1                             (* a raw context.Canceled value (of any context): Canceled *)
+  else if code =? -4 then 4                             (* a raw context.DeadlineExceeded value: DeadlineExceeded *)
   else code.
 
 Definition steps_of (s : st) (a : actor) (p : pend) : list outcome :=
